@@ -27,6 +27,34 @@ if w.get("op") == "rwlock":
         sys.exit(0)
     print("not reproduced")
     sys.exit(1)
+if w.get("op") == "backend-init":
+    import pathlib
+    d0 = tempfile.mkdtemp()
+    p0 = os.path.join(d0, "new.ukv")
+    probe0 = ("import os,sys; os.environ['MOLLI_HOME']=%r; from molli._aux.lock import rwlock; "
+              "from fasteners import InterProcessReaderWriterLock as L; l=L(rwlock(%r)); ok=l.acquire_write_lock(timeout=0.3); "
+              "sys.exit(7 if ok else 0)" % (os.environ["MOLLI_HOME"], p0))
+    seen = []
+    real_is_file = pathlib.Path.is_file
+
+    def spy(self):
+        if str(self) == p0:
+            free = subprocess.run([sys.executable, "-c", probe0], capture_output=True, text=True, timeout=30).returncode == 7
+            seen.append(free)
+        return real_is_file(self)
+    pathlib.Path.is_file = spy
+    try:
+        UkvCollectionBackend(p0, readonly=False, bufsize=0)
+    finally:
+        pathlib.Path.is_file = real_is_file
+    if not seen:
+        print("not reproduced (no existence test observed)")
+        sys.exit(1)
+    if any(seen):
+        print("REPRODUCED: the constructor tests for the library file while the write lock is free: another process can create / truncate the file in between")
+        sys.exit(0)
+    print("not reproduced")
+    sys.exit(1)
 br = " ".join(w.get("branches") or [])
 d = tempfile.mkdtemp()
 p = os.path.join(d, "lib.ukv")
